@@ -135,13 +135,18 @@ def make_case(idx):
                                 ('rep', ('brk', False, [('range', 'a', 'c')]), 1, -1), ('cat', [('any',), ('any',)]), ('alt', ('lit', 'foo'), ('lit', 'bar'))])
             if steps and R.random() < 0.15:
                 ast = None      # empty pattern: reuse the previous one, possibly in the other direction
-            steps.append((R.choice(['/', '/', '?']), cnt, ast))
+            so = R.choice(['+1', '-1', '0', '+0', '2', ' 1', '-2']) if R.random() < 0.15 else None
+            steps.append((R.choice(['/', '/', '?']), cnt, ast, so))
         elif k < 0.75:
-            steps.append(('n', cnt, None))
+            steps.append(('n', cnt, None, None))
         elif k < 0.9:
-            steps.append(('N', cnt, None))
+            steps.append(('N', cnt, None, None))
         else:
-            steps.append(('^A', cnt if cnt != '3' else '', None))
+            steps.append(('^A', cnt if cnt != '3' else '', None, None))
+    if R.random() < 0.12 and steps[0][0] in '/?':
+        # directed family: an offset search, then searches that carry no offset of their own
+        c0, n0, a0, _ = steps[0]
+        steps = [(c0, n0, a0, R.choice(['+1', '-1', '0', '+0']))] + [R.choice([('^A', '', None, None), ('^A', '2', None, None), ('n', '', None, None), ('N', '', None, None)]) for _ in range(R.randint(1, 3))]
     return {'lines': lines, 'row': r, 'off': o, 'noic': noic, 'steps': steps, 'idx': idx}
 
 
@@ -152,9 +157,9 @@ def keys_of(case):
     k += b'%dG0' % (case['row'] + 1)
     if case['off']:
         k += b'%dl' % case['off']
-    for cmd, cnt, ast in case['steps']:
+    for cmd, cnt, ast, so in case['steps']:
         if cmd in '/?':
-            k += cnt.encode() + cmd.encode() + (typed_pat(ast, cmd).encode('utf-8') if ast is not None else b'') + b'\n'
+            k += cnt.encode() + cmd.encode() + (typed_pat(ast, cmd).encode('utf-8') if ast is not None else b'') + ((cmd + so).encode() if so else b'') + b'\n'
         elif cmd == '^A':
             k += cnt.encode() + b'\x01'
         else:
@@ -170,9 +175,12 @@ def simulate(case, variant=None):
     r, o = clamp(lines, case['row'], case['off'])
     last = None     # (ast, dir)
     moved = False
-    for cmd, cnt, ast in case['steps']:
+    soset, sov = False, 0
+    for cmd, cnt, ast, so in case['steps']:
         n = int(cnt) if cnt else 1
         if cmd in '/?':
+            # a line offset after the closing delimiter turns the search into a line motion to (match line + offset); n and N keep it
+            soset, sov = so is not None, int(so) if so else 0
             if ast is None:
                 if last is None:
                     continue
@@ -191,6 +199,7 @@ def simulate(case, variant=None):
             if b >= e:
                 continue
             w = ln[b:e][:119]
+            soset = False
             last = (('cat', [('wbeg',), ('lit', w), ('wend',)]), +1)
             d = +1
         else:
@@ -205,7 +214,12 @@ def simulate(case, variant=None):
                 ok = False
                 break
             cr, co, ln_ = res
-        if ok:
+        if ok and soset:
+            if 0 <= cr + sov < len(lines):
+                r = cr + sov
+                r, o = clamp(lines, r, len(lines[r]) - len(lines[r].lstrip(' \t')))
+                moved = True
+        elif ok:
             r, o = clamp(lines, cr, co)
             moved = True
     return r, o, M, moved
@@ -219,7 +233,7 @@ def run_case(args):
     got = common.readf(d, 'out')
     common.rmcase(d)
     wit = {'index': idx, 'lines': case['lines'], 'cursor': (case['row'], case['off']), 'keys': keys,
-           'steps': [(c, n, mr.render(a) if a else None) for c, n, a in case['steps']]}
+           'steps': [(c, n, mr.render(a) if a else None, so) for c, n, a, so in case['steps']]}
     rep = common.san_report(r)
     if rep:
         return (rep, 'sanitizer/crash: keys %s: %s' % (common.show(keys, 200), r.err[-400:].decode('latin-1')), wit, False)
@@ -267,9 +281,9 @@ def run(tier, V):
             moved += 1
     c0 = make_case(base)
     cov = {'evaluations': n, 'distinct_nontrivial': moved,
-           'rule': ('%d cases: buffers of 1-8 lines (ASCII, Latin-1, Greek, CJK words, punctuation), every kind of start position, sequences of 1-5 searches from / ? n N ^A with counts, patterns from the C10 generator '
+           'rule': ('%d cases: buffers of 1-8 lines (ASCII, Latin-1, Greek, CJK words, punctuation), every kind of start position, sequences of 1-5 searches from / ? n N ^A with counts and (15%%) line offsets after the closing delimiter, patterns from the C10 generator '
                     '(anchored, word-boundary, empty-matching, groups, classes), ignorecase on/off; cursor observed through a marker inserted after the sequence.  non-trivial = the reference moved the cursor at least once.' % n),
-           'samples': [{'lines': c0['lines'], 'cursor': (c0['row'], c0['off']), 'steps': [(c, k, mr.render(a) if a else None) for c, k, a in c0['steps']]}]}
+           'samples': [{'lines': c0['lines'], 'cursor': (c0['row'], c0['off']), 'steps': [(c, k, mr.render(a) if a else None, so) for c, k, a, so in c0['steps']]}]}
     assumptions = ['whole-line semantics: anchors and word boundaries see their real neighbours; the line terminator is not part of the text',
                    'left-to-right scripts only (bidi is C17/C18); cursor is clamped off the terminator after the search']
     return cov, assumptions
